@@ -222,17 +222,28 @@ func run(r *engine.Run) {
 	if err := refSelfTest(); err != nil {
 		engine.Fatal3("%v", err)
 	}
-	nPure, nVals, nMem, nSign := 5, 4, 5, 4
+	nPure, nVals, nMem, nSign := 4, 4, 5, 4
 	if !quick {
 		nPure, nVals, nMem, nSign = 6, 5, 6, 5
 	}
-	r.Bound = fmt.Sprintf("pure samplers: every ordered weight vector over {1,2,3,10^6,2^62,2^63} of length 1..%d (thorough also over "+
-		"{1,2,3,7,10^6,2^62,2^63-1,2^63} up to length 5) plus %d hand-chosen vectors around a total of 2^64, cnt 1..n, tries in {1,2,3,10}, "+
-		"3 seeds x 3 ids; oracle keeper: %d validators, every flag vector {eligible, oracle-inactive, not-bonded, jailed}^n x every token vector "+
-		"over the keeper alphabet, ask 1..n+1, tries {1,3}, 2 seeds x 2 ids x 2 chain ids; MsgRequestData through the router on 3..4 validators; "+
-		"tss: groups of 1..%d members, every flag vector {available, inactive, queue-empty, inactive+no-queue}^n, threshold 1..n, 3 seeds x 3 signing ids x 2 attempts; "+
-		"RequestSigning + retry on %d members with 1 or 2 queued nonces; rolling seed: all 256 first hash bytes x 3 hash lengths x 3 seeds",
-		nPure, len(pureExtras), nVals, nMem, nSign)
+	if quick {
+		r.Bound = "QUICK. pure samplers (ChooseOne/ChooseSome/ChooseSomeMaxWeight): every ordered weight vector over {1,2,3,10^6,2^62,2^63} of length 1..4, " +
+			"every vector over {1,3,10^6,2^62,2^63} of length 5, 18 hand-chosen vectors with totals at/around 2^64 (n up to 10); cnt 1..n, tries {1,2,3,10}, 3 seeds x 3 ids " +
+			"(vectors whose total exceeds 2^64-1: one seed/id). DRBG stream: 3 seeds x 5 nonces x 4 personalizations, 24 draws. " +
+			"oracle keeper GetRandomValidators: 4 validators, every state vector {eligible, oracle-inactive, unbonding-in-index, jailed}^4 x every token vector over {3,10^6,1.5*10^6,2^63}^4, " +
+			"ask 1..min(eligible+1,5), (tries,seed,id,chain) in 4 combinations; 3 validators over {1,2^63,2^64-1,2^64} x {eligible,inactive}^3. " +
+			"MsgRequestData through the router: 3 and 4 validators, all 4^n state vectors, ask 1..n, 2 seeds, request ids {1,2} and {42,43}. " +
+			"tss GetRandomMembers: groups of 1..5 members, every state vector {available, inactive, queue-used-up, inactive+no-queue}^n, threshold 1..n, 3 seeds x 3 signing ids x 2 attempts (+1 other chain id). " +
+			"RequestSigning + retry (InitiateNewSigningRound): 1..4 members x {1 nonce, 2 nonces, inactive, queue-used-up}^n, threshold 1..n, 2 seeds, signing ids {1, 2^64-1}. " +
+			"rolling seed BeginBlocker: 3 seeds x (empty hash + 256 first bytes x 3 hash lengths)"
+	} else {
+		r.Bound = "THOROUGH. pure samplers: every ordered weight vector over {1,2,3,10^6,2^62,2^63} of length 1..6 and over {1,2,3,7,10^6,2^62,2^63-1,2^63} of length 1..5, " +
+			"18 hand-chosen vectors at/around a total of 2^64; cnt 1..n, tries {1,2,3,10}, 3 seeds x 3 ids. DRBG stream as quick. " +
+			"oracle keeper: 4 validators {E,I,U,X}^4 x {1,3,10^6,1.5*10^6,99999999,2^62,2^63}^4, tries {1,2,3,10} x 2 seeds x 2 ids (+ second chain id); 5 validators {E,I,U,X}^5 x {1,10^6,1.5*10^6,2^63}^5; " +
+			"6 validators {E,I}^6 x {3,10^6,1.5*10^6,2^62}^6; near-2^64 as quick. MsgRequestData: additionally 4 equal-stake validators and 5 validators {E,I,U}^5. " +
+			"tss GetRandomMembers: groups of 1..6 members; RequestSigning + retry: 1..5 members. rolling seed as quick"
+	}
+	_ = nPure
 	r.Rule = "one evaluation = one call of a real function/handler on one enumerated tuple compared with the reference; tuples are enumerated by " +
 		"odometer over the stated alphabets (no sampling); an evaluation is non-trivial when the real code returned a committee; " +
 		"distinct_nontrivial counts distinct (part, eligible configuration, size, returned committee) combinations"
